@@ -229,7 +229,7 @@ def find_pattern_in_structure(structure, pattern, axisp1_idx=None, axisp2_idx=No
 
             # note that we can use positions are unchanged here, which does not handle periodic boundaries, because all
             # our coordinates are unwrapped.
-            if np.allclose(atom_positions, chk_pattern.positions, atol=atol):
+            if np.allclose(atom_positions, chk_pattern.positions, rtol=0, atol=atol):
                 good_indices.append(i)
 
         if len(good_indices) > 1:
